@@ -319,4 +319,129 @@ theorem fileReport_source_order (path text : Text) (bs : List Block) (changes : 
 
 
 
+/-! ### source order for every grammar (Markdown merges two families) -/
+
+/-- a list is sorted and all its elements are not before `a` -/
+theorem sorted_cons_of {a : Block} {l : List Block} (hl : Sorted l) (h : ∀ x ∈ l.head?, ¬ x.tagStart.lt a.tagStart = true) :
+    Sorted (a :: l) := by
+  cases l with
+  | nil => trivial
+  | cons b rest => exact ⟨h b (by simp), hl⟩
+
+theorem head_mergeBlocks (n : Nat) (a b : List Block) (x : Block) (hx : x ∈ (mergeBlocks n a b).head?) :
+    x ∈ a.head? ∨ x ∈ b.head? := by
+  cases n with
+  | zero =>
+    simp only [mergeBlocks] at hx
+    cases a with
+    | nil => exact Or.inr (by simpa using hx)
+    | cons a0 as => exact Or.inl (by simpa using hx)
+  | succ n =>
+    cases a with
+    | nil => simp only [mergeBlocks] at hx; exact Or.inr hx
+    | cons a0 as =>
+      cases b with
+      | nil => simp only [mergeBlocks] at hx; exact Or.inl hx
+      | cons b0 bs =>
+        simp only [mergeBlocks] at hx
+        split at hx
+        · exact Or.inr (by simpa using hx)
+        · exact Or.inl (by simpa using hx)
+
+/-- `itertools::merge` of two sorted lists is sorted (given enough fuel: the model passes `|a| + |b| + 1`) -/
+theorem mergeBlocks_sorted : ∀ (n : Nat) (a b : List Block), a.length + b.length ≤ n → Sorted a → Sorted b →
+    Sorted (mergeBlocks n a b)
+  | 0, a, b, hn, ha, hb => by
+    have h1 : a = [] := List.length_eq_zero_iff.1 (by omega)
+    have h2 : b = [] := List.length_eq_zero_iff.1 (by omega)
+    subst h1; subst h2; trivial
+  | n + 1, [], b, _, _, hb => by simpa [mergeBlocks] using hb
+  | n + 1, a0 :: as, [], _, ha, _ => by simpa [mergeBlocks] using ha
+  | n + 1, a0 :: as, b0 :: bs, hn, ha, hb => by
+    simp only [mergeBlocks]
+    by_cases hlt : b0.tagStart.lt a0.tagStart = true
+    · simp only [hlt, if_true]
+      have ih := mergeBlocks_sorted n (a0 :: as) bs (by simp only [List.length_cons] at hn ⊢; omega) ha (sorted_tail hb)
+      apply sorted_cons_of ih
+      intro x hx
+      rcases head_mergeBlocks n (a0 :: as) bs x hx with h | h
+      · simp only [List.head?_cons, Option.mem_def, Option.some.injEq] at h
+        subst h
+        exact Pos.lt_asymm hlt
+      · cases bs with
+        | nil => simp at h
+        | cons b1 bs' =>
+          simp only [List.head?_cons, Option.mem_def, Option.some.injEq] at h
+          subst h
+          exact hb.1
+    · simp only [hlt, if_false, Bool.false_eq_true]
+      have ih := mergeBlocks_sorted n as (b0 :: bs) (by simp only [List.length_cons] at hn ⊢; omega) (sorted_tail ha) hb
+      apply sorted_cons_of ih
+      intro x hx
+      rcases head_mergeBlocks n as (b0 :: bs) x hx with h | h
+      · cases as with
+        | nil => simp at h
+        | cons a1 as' =>
+          simp only [List.head?_cons, Option.mem_def, Option.some.injEq] at h
+          subst h
+          exact ha.1
+      · simp only [List.head?_cons, Option.mem_def, Option.some.injEq] at h
+        subst h
+        exact hlt
+
+/-- **blocks come out of every grammar in source order** (Markdown's two comment families are merged by position) -/
+theorem blocksOf_sorted (cfg : Tag.Cfg) (parser : String) (text : Text) (nodes : List Node) (bs : List Block)
+    (h : blocksOf cfg parser text nodes = .ok bs) : Sorted bs := by
+  have hone : ∀ ns r, (match commentsOf parser text ns with
+      | .error e => (Except.error e : Except PErr (List Block))
+      | .ok cs => match parseBlocksFromComments cfg cs with
+        | .error e => .error (.blocks e)
+        | .ok bs => .ok bs) = .ok r → Sorted r := by
+    intro ns r hr
+    split at hr
+    · cases hr
+    · rename_i cs _
+      split at hr
+      · cases hr
+      · rename_i bs' hp
+        injection hr with hr; subst hr
+        unfold parseBlocksFromComments at hp
+        cases hpair : pair (events cfg cs) [] [] with
+        | error e => rw [hpair] at hp; cases hp
+        | ok raw =>
+          rw [hpair] at hp
+          simp only [Except.map] at hp
+          injection hp with hp; subst hp
+          exact sortBlocks_sorted raw
+  unfold blocksOf at h
+  simp only at h
+  split at h
+  · split at h
+    · cases h
+    · rename_i md hmd
+      split at h
+      · cases h
+      · rename_i html hhtml
+        injection h with h; subst h
+        exact mergeBlocks_sorted _ md html (by omega) (hone _ md hmd) (hone _ html hhtml)
+  · exact hone nodes bs h
+
+/-- **`list` prints the selected blocks of every parsed file in source order**, whatever the grammar -/
+theorem list_source_order (cfg : Tag.Cfg) (extra : List (Text × Text)) (path : Text) (text : Option Text) (nodes : List Node)
+    (changes : List LC) (all : Bool) (f : FileCtx) (h : parseFile cfg extra path text nodes changes all = .ok (some f)) :
+    fileReport f = f.blocks.map entryOf := by
+  unfold parseFile at h
+  split at h
+  · cases h
+  · split at h
+    · cases h
+    · rename_i t
+      split at h
+      · cases h
+      · rename_i bs hbs
+        injection h with h
+        injection h with h
+        subst h
+        exact fileReport_source_order path t bs changes all (blocksOf_sorted cfg _ t nodes bs hbs)
+
 end Bw.Props.C03
